@@ -31,10 +31,17 @@ def _convert(v):
     return v
 
 
+def _convert_count(v):
+    try:
+        return _convert_args(v)
+    except ValueError:  # Text that is not a number is counted as it is.
+        return v
+
+
 def xfunc(*args, func=max, check=is_number, convert=None, default=0,
           _raise=True):
     _raise and raise_errors(args)
-    it = flatten(map(_convert_args, args), check=check)
+    it = flatten(map(_convert_args if _raise else _convert_count, args), check)
     default = [] if default is None else [default]
     return func(list(map(convert, it) if convert else it) or default)
 
